@@ -14,7 +14,7 @@ TYPE_RX = (r"(?:typename\s+)?(?:SimTK::)?(?:"
            r"QuaternionP?|Quaternion_<P>|Rotation_<P>|RotationP|Rotation|InverseRotation_<P>|Transform_<P>|TransformP|Transform|"
            r"UnitVec<P,1>|UnitVec3P?|UnitVecP|"
            r"(?:Unit)?(?:Vec|Row|Mat|SymMat)<[^;=()]*?>|Inertia_<P>|InertiaP|Inertia|UnitInertia_<P>|UnitInertiaP|UnitInertia|Gyration_<P>|"
-           r"MassProperties_<P>|MassPropertiesP|SpatialInertia_<P>|SpatialInertia_|ArticulatedInertia_<P>|ArticulatedInertia_|Mat33E|Vec3E|auto"
+           r"CoordinateAxis|CoordinateDirection|BodyOrSpaceType|MassProperties_<P>|MassPropertiesP|SpatialInertia_<P>|SpatialInertia_|ArticulatedInertia_<P>|ArticulatedInertia_|Mat33E|Vec3E|auto"
            r")")
 DECL_RX = re.compile(r"^(?:static\s+)?(?:const\s+)?(" + TYPE_RX + r")\s*(?:const\s*)?&?\s+(?=[A-Za-z_])")
 
@@ -58,6 +58,8 @@ class Translit:
             self.hit("template-type-flatten", m.group(0))
             return "%s_%s" % (m.group(1), re.sub(r"[^0-9A-Za-z]+", "_", m.group(2)).strip("_"))
         e = re.sub(r"\b((?:Unit)?(?:Vec|Row|Mat|SymMat))<([^<>()]*)>", flat, e)
+        if re.search(r"\b\w+<P>", e):
+            self.hit("template-type-flatten", e0); e = re.sub(r"\b(\w+)<P>", r"\1_P", e)
         for a, b in (("std::cos(", "cos("), ("std::sin(", "sin("), ("std::sqrt(", "sqrt("), ("std::abs(", "abs_("),
                      ("std::min(", "min_("), ("std::max(", "max_("), ("std::pow(", "pow_("), ("std::atan2(", "atan2_("),
                      ("std::acos(", "acos_("), ("std::asin(", "asin_("), ("std::fabs(", "abs_("), ("std::exp(", "exp_("),
@@ -83,16 +85,53 @@ class Translit:
         e = re.sub(r"\b(?:RealP|Real|P|E|double|float)\s*\((?=[^)])", cast, e)
         e = re.sub(r"static_cast<\s*(?:RealP|Real|P|double|float)\s*>\s*\(", cast, e)
         if "&&" in e or "||" in e:
-            self.hit("logical-ops", e0); e = e.replace("&&", " and ").replace("||", " or ")
+            self.hit("logical-ops->AND/OR", e0); e = self.logic(e)
         e = re.sub(r"!(?!=)", " not ", e)
         e = re.sub(r"\btrue\b", "True", e); e = re.sub(r"\bfalse\b", "False", e)
         if "::" in e:
             self.hit("scope-flatten", e0); e = e.replace("::", "_")
         if "->" in e:
             self.hit("arrow->dot", e0); e = e.replace("->", ".")
+        if re.search(r"\*\s*this\b", e):
+            self.hit("*this->self", e0); e = re.sub(r"\*\s*this\b", "self", e)
+        e = re.sub(r"\bthis\.", "self.", e)
+        e = re.sub(r"\bint\s*\(", "int(", e)
         if "?" in e:
             e = self.ternary(e)
         return e
+
+    def logic(self, e):
+        """a && b || c  ->  OR(AND(a, b), c)   (pure conditions; AND/OR build z3 terms or python bools)"""
+        def split_op(t, op):
+            out, depth, cur, i = [], 0, [], 0
+            while i < len(t):
+                ch = t[i]
+                if ch in "([{": depth += 1
+                elif ch in ")]}": depth -= 1
+                if depth == 0 and t.startswith(op, i):
+                    out.append("".join(cur)); cur = []; i += len(op); continue
+                cur.append(ch); i += 1
+            out.append("".join(cur))
+            return [x.strip() for x in out]
+        def inner(t):
+            # recurse into parenthesised groups first
+            out, i = [], 0
+            while i < len(t):
+                if t[i] == "(":
+                    j = match_brace(t, i)
+                    g = t[i + 1:j]
+                    out.append("(" + (self.logic(g) if ("&&" in g or "||" in g) else g) + ")"); i = j + 1
+                else:
+                    out.append(t[i]); i += 1
+            return "".join(out)
+        # a ?: at top level must keep its structure: only rewrite inside its three parts
+        ors = split_op(e, "||")
+        if len(ors) > 1:
+            return "OR(%s)" % ", ".join(self.logic(x) for x in ors)
+        ands = split_op(e, "&&")
+        if len(ands) > 1:
+            return "AND(%s)" % ", ".join(self.logic(x) for x in ands)
+        return inner(e)
 
     def ternary(self, e):
         # a ? b : c  (top level of e, or inside one parenthesis level) -> ITE(a,b,c)
@@ -111,9 +150,11 @@ class Translit:
                     elif e[j] == "?" and d2 == 0:
                         break
                     elif e[j] == ":" and d2 == 0:
-                        self.hit("ternary->ITE", e)
+                        self.hit("ternary->conditional-expression", e)
                         # condition extends left to start or to an '=' / ',' / 'return' boundary at depth 0
-                        return "ITE(%s, %s, %s)" % (e[:i].strip(), self.ternary(e[i + 1:j].strip()), self.ternary(e[j + 1:].strip()))
+                        # lazy, like C++: only the selected arm is evaluated; a symbolic condition
+                        # is decided by the branch script (path splitting) through BR()
+                        return "((%s) if BR(%s) else (%s))" % (self.ternary(e[i + 1:j].strip()), e[:i].strip(), self.ternary(e[j + 1:].strip()))
                 raise ExtractionError("%s: unsupported ?: in '%s'" % (self.name, e))
         # nested inside parentheses: recurse into each parenthesised group
         out, i = [], 0
@@ -226,6 +267,15 @@ class Translit:
         raise ExtractionError("%s: cannot split statement '%s'" % (self.name, rest[:60]))
 
     def simple(self, st):
+        m = re.match(r"^std::swap\s*\((.+)\)$", st)
+        if m:
+            a, b = split_top(m.group(1))
+            self.hit("std::swap->tuple-assign", st)
+            return ["%s, %s = %s, %s" % (self.expr(a), self.expr(b), self.expr(b), self.expr(a))]
+        m = re.match(r"^(.+?)\s*=\s*-\s*\(\s*([^=()]+?)\s*=\s*([^=()]+)\)$", st)
+        if m and "==" not in st:
+            self.hit("nested-assignment-split", st)
+            return ["%s = %s" % (self.expr(m.group(2)), self.expr(m.group(3))), "%s = -(%s)" % (self.expr(m.group(1)), self.expr(m.group(2)))]
         if st.startswith("return"):
             e = st[6:].strip()
             return ["return " + (self.expr(e) if e else "None")]
